@@ -10,6 +10,6 @@ p='/repo/'+f; s=open(p).read()
 assert s.count(old)>=1, 'pattern not found'
 open(p,'w').write(s.replace(old,new,1))
 PY
-/verif/bin/vcheck $P "$@" > /tmp/mut.log 2>&1; rc=$?
+VERIF_EVIDENCE_DIR=/tmp/seed_evidence /verif/bin/vcheck $P "$@" > /tmp/mut.log 2>&1; rc=$?
 grep -E "violated:|INCONCLUSIVE|HARNESS" /tmp/mut.log | cut -c1-200 | head -4
 tail -1 /tmp/mut.log; echo "exit=$rc"
